@@ -4,7 +4,7 @@ from .c05 import rand_tree
 from .c09 import classify_tree, small_trees
 
 VALUE_OPS = ["splitUniform", "splitNonUniform", "splitEqual", "splitUnEqual", "fiberSplitUniform", "truediv", "floordiv", "swizzle", "swap", "flatten", "fiberFlatten",
-             "merge", "updateCoords", "updatePayloads", "add", "mul", "addscalar", "mulscalar", "copy", "deepcopy", "fiberDeepcopy", "fromFiberOwned", "swizzlePartial"]
+             "merge", "updateCoords", "updatePayloads", "add", "mul", "addscalar", "mulscalar", "copy", "deepcopy", "fiberDeepcopy", "fromFiberOwned", "swizzlePartial", "unflatten", "fiberUnflatten"]
 OBSERVERS = ["getPayload", "iterate", "coiterate", "compare", "queries", "print", "dump", "uncompress", "footprint", "renderTree", "renderUncompressed", "renderTensor", "renderTreeHL", "renderUncompressedHL", "renderTensorHL"]
 
 
@@ -24,12 +24,16 @@ def run(ctx):
     for depth, t in trees:
         t2 = rand_tree(rng, 4, depth, pz=0.1, pabs=0.4)
         for op in VALUE_OPS:
-            need2 = op in ("swap", "flatten", "fiberFlatten", "merge", "swizzle", "swizzlePartial")
+            need2 = op in ("swap", "flatten", "fiberFlatten", "merge", "swizzle", "swizzlePartial", "unflatten", "fiberUnflatten")
             if need2 and depth < 2:
                 continue
             if op in ("add", "mul", "addscalar", "mulscalar", "truediv", "floordiv") and depth != 1:
                 continue
             d = rng.randint(0, depth - 2) if need2 else rng.randint(0, depth - 1)
+            if op == "fiberUnflatten":
+                d = 0           # Fiber.unflattenRanks works on the top rank only
+            if op in ("unflatten", "fiberUnflatten") and not t["e"]:
+                continue        # an empty fiber has no tuple coordinates to unflatten (precondition of the call)
             if classify_tree(t) == "ghost" and (need2 or op.startswith("split") or op == "fiberSplitUniform"):
                 continue          # *Below transforms on 'ghost' sub-fibers: C09 / C08 known findings, not an aliasing question
             cases.append({"kind": "value", "op": op, "tree": t, "tree2": t2, "depth": depth, "d": d, "step": rng.randint(1, 3), "style": rng.choice(["tuple", "pair"]),
